@@ -3,7 +3,7 @@
 # variants: seq (gcc ASan+UBSan, serial backend, hooks on), par (TBB, hooks on),
 #           tsan (clang-14 ThreadSanitizer, serial backend, hooks on), off (pristine flags, hooks off, with tests)
 set -e
-V=$1; REPO=${VERIF_REPO:-/repo}; B=/verif/build/$V
+V=$1; REPO=${VERIF_REPO:-/repo}; B=${VERIF_BUILD:-/verif/build}/$V
 mkdir -p $B
 COMMON="-G Ninja -DMANIFOLD_CBIND=ON -DMANIFOLD_DOWNLOADS=OFF -DCMAKE_BUILD_TYPE=None -DBUILD_SHARED_LIBS=OFF"
 case $V in
